@@ -122,7 +122,7 @@ func TestWorker(t *testing.T) {
 			}
 			v := &core.Violation{Property: propID, Oracle: "hang", Detail: fmt.Sprintf("the run did not finish within %v of real time (spin or deadlock); goroutines in gluon code:\n%s", runTimeout, strings.Join(gl, "\n\n")), Sig: "hang: run did not finish", Step: -1}
 			rec := &core.RunRecord{Idx: idx, Seed: sc.Seed, Violation: v, WallMs: time.Since(st).Milliseconds()}
-			if dir := os.Getenv("VERIF_REPLAY_DIR"); dir != "" && idx >= 0 {
+			if dir := os.Getenv("VERIF_REPLAY_DIR"); dir != "" && idx != -1 {
 				path := filepath.Join(dir, fmt.Sprintf("%s-%d.json", propID, sc.Seed))
 				if core.WriteReplay(path, sc, v, nil) == nil {
 					rec.Replay = path
@@ -200,9 +200,15 @@ func TestWorker(t *testing.T) {
 			}
 			if !seenSig[res.V.Sig] && replayDir != "" {
 				seenSig[res.V.Sig] = true
-				small, sres, runs := core.Shrink(sc, res.V.Sig, shrinkBudget, func(c *core.Scenario) *core.Result { return p.Execute(c, false) })
+				small, sres, runs := core.Shrink(sc, res.V.Sig, shrinkBudget, func(c *core.Scenario) *core.Result {
+					un := guard(c, -2) // a hang while shrinking is reported for the candidate
+					defer un()
+					return p.Execute(c, false)
+				})
 				rec.Shrunk = fmt.Sprintf("%d->%d actions in %d runs", len(sc.Actions), len(small.Actions), runs)
+				un := guard(small, -2)
 				final := p.Execute(small, true)
+				un()
 				v := final.V
 				if v == nil || v.Sig != res.V.Sig {
 					// shrinking result does not reproduce: keep the original
